@@ -16,8 +16,7 @@ package main
 //	    | ( obj MODE CATCH PART ( cks SZ* ) ( STR S )* )     MODE ::= strip|strict|loose  CATCH ::= - | S   PART ::= p | -
 //	    | ( objF MODE CATCH ( ops OP* ) ( cks SZ* ) ( STR S )* )   an object with a call history, top level (or under lazy) only
 //	                               OP ::= ( part STR* ) | ( req STR* )      Partial(keys…) / Required(keys…), in call order
-//	    | ( mapF ( str CK* ) S SZ* )   gozod.Map(String()<CK*>, S)<SZ*>, top level only; written `mapf` when the tree's convertMap
-//	                               drops the key schema (probed: legacyMap; before the fix C07-map-key-schema)
+//	    | ( mapF ( str CK* ) S SZ* )   gozod.Map(String()<CK*>, S)<SZ*>, top level only
 //	    | ( recV WRAP S )          V = Union([S, Slice(LazyAny(→ V))]); the schema is V (root), StrictObject{val: V} (field) or Slice(V)
 //	                               (slice); top level only, default options only; written `recv` when the tree's convertLazy answers
 //	                               the cycle with {"$ref":"#"} (probed: legacyRec; before the fix C07-lazy-ref-nonroot)
@@ -70,9 +69,6 @@ type ObjOp struct {
 	Req  bool
 	Keys []string
 }
-
-// legacyMap: convertMap of the tree under test drops the key schema (probed at start-up).
-var legacyMap bool
 
 // legacyRec: convertLazy of the tree under test answers a cycle that does not close at the root with {"$ref":"#"} (probed).
 var legacyRec bool
@@ -207,9 +203,6 @@ func (s *Sch) String() string {
 		}
 		return "( recV " + s.Kind + " " + s.Elem.String() + " )"
 	case "map":
-		if legacyMap {
-			return "( mapf " + s.Key.String() + " " + s.Elem.String() + cks(s.Cks) + " )"
-		}
 		return "( mapF " + s.Key.String() + " " + s.Elem.String() + cks(s.Cks) + " )"
 	case "union", "xor", "and":
 		var b strings.Builder
